@@ -18,7 +18,7 @@ RULE = (
     "a name or a port-ID; distinct by configuration tuple."
 )
 ASSUMPTIONS = ["fixed port-IDs are unregulated ones (allow_unregulated_fixed_port_id=True); the regulated ranges belong to C05"]
-MIN_MONITORS = {"configuration": 20000, "expected-accept": 8000, "expected-reject": 5000}
+MIN_MONITORS = {"configuration": 20000, "expected-accept": 8000, "expected-reject": 5000, "same-version-twins": 800}
 THOROUGH_MIN_SCALE = 3
 
 MODES = [("sealed", 8), ("sealed", 16), ("ext", 64), ("ext", 72), ("sealed", 64)]  # sealed 64 vs delimited 64: equal extents, different sealing (M-reach: the sealing check was never reached otherwise)
@@ -199,6 +199,72 @@ def run_config(ctx, pydsdl, defs, placement, referenced, workdir, tag):
         shutil.rmtree(base, ignore_errors=True)
 
 
+def twin_violation(a, b):
+    """
+    Two definition files that spell the SAME name and version (Aa.1.0.dsdl next to 100.Aa.1.0.dsdl or Aa.1.0.uavcan): they are two
+    definitions under one major version, so the rules of the statement apply to the pair as to any other - same kind, same port-ID,
+    and for major >= 1 equal extent and sealing per section.  Returns the violated rule or None (then the pair is not judged here).
+    """
+    if a["kind"] != b["kind"]:
+        return "kind"
+    if a["port"] != b["port"]:
+        return "port-differs"
+    if a["ver"][0] >= 1:
+        if extent_sealing(a["req"]) != extent_sealing(b["req"]):
+            return "request-extent-or-sealing"
+        if a["kind"] == "svc" and extent_sealing(a["resp"]) != extent_sealing(b["resp"]):
+            return "response-extent-or-sealing"
+    return None
+
+
+def run_twins(ctx, pydsdl, rng, workdir):
+    base = workdir / "c11t"
+    shutil.rmtree(base, ignore_errors=True)
+    kind = rng.choice(["msg", "svc", "svc"])
+    ver = rng.choice(VERSIONS)
+    a = {"name": "Aa", "ver": ver, "kind": kind, "port": rng.choice(PORTS), "req": rng.choice(MODES), "resp": rng.choice(MODES)}
+    b = dict(a)
+    for key, pool in (("kind", ["msg", "svc"]), ("port", PORTS), ("req", MODES), ("resp", MODES)):
+        if rng.random() < 0.4:
+            b[key] = rng.choice(pool)
+    fa, fb = file_rel("tgt", a), file_rel("tgt", b)
+    if fa == fb:
+        fb = fb[:-len(".dsdl")] + ".uavcan"   # the legacy extension
+    why = twin_violation(a, b)
+    if why is None:
+        return
+    case = {"twins": [a, b], "files": [fa, fb]}
+    try:
+        for f, d in ((fa, a), (fb, b)):
+            (base / f).parent.mkdir(parents=True, exist_ok=True)
+            (base / f).write_text(def_text(d))
+        if rng.random() < 0.5:
+            (base / "tgt" / "Other.1.0.dsdl").write_text("@sealed\n")
+        ctx.mon("configuration")
+        ctx.mon("same-version-twins")
+        ctx.mon("expected-reject")
+        api = "read_namespace" if rng.random() < 0.7 else "read_files"
+        case["api"] = api
+        try:
+            if api == "read_namespace":
+                pydsdl.read_namespace(base / "tgt", [], allow_unregulated_fixed_port_id=True)
+            else:
+                pydsdl.read_files([base / fa, base / fb], [base / "tgt"], allow_unregulated_fixed_port_id=True)
+        except pydsdl.InvalidDefinitionError:
+            return
+        except pydsdl.Error as ex:
+            ctx.violation("C11/wrong-exception", "%r" % (ex,), case)
+            return
+        same_layout = a["kind"] == b["kind"] and a["req"] == b["req"] and (a["kind"] == "msg" or a["resp"] == b["resp"])
+        # the known finding C10/duplicate-definition-dropped seen through this property: read_files de-duplicates its targets by name and
+        # version before anything is read, read_namespace merges two composites that it cannot tell apart (same kind and layout)
+        mech = "C11/duplicate-definition-dropped" if (same_layout or api == "read_files") else "C11/violating-set-accepted/twins-" + why
+        ctx.violation(mech, "%s: two files define Aa.%d.%d (%s and %s) and differ in %s, but the set was accepted" % (api, ver[0], ver[1], fa, fb, why), case)
+    finally:
+        shutil.rmtree(base, ignore_errors=True)
+        ctx.case(("twins", repr(a), repr(b), fb), True, classes=["same-version-twins", "expect-reject:twins-" + why])
+
+
 def cfg_key(defs, placement, referenced):
     return (tuple((d["name"], d["ver"], d["kind"], d["port"], d["req"], d["resp"] if d["kind"] == "svc" else None) for d in defs), placement, tuple(sorted(referenced)))
 
@@ -245,6 +311,10 @@ def run_shard(ctx):
         shares = len({d["name"] for d in defs}) < len(defs) or len({d["port"] for d in defs if d["port"] is not None}) < len([d for d in defs if d["port"] is not None])
         ctx.case(cfg_key(defs, placement, referenced), shares, classes=["placement-" + placement, "expect-" + ("reject:" + exp[0][0] if exp else "accept")],
                  sample={"files": {file_rel("tgt" if placement == "target" else "lkp", d): def_text(d) for d in defs}, "expected": exp or "accept"} if i < 3 else None)
+    for i in range(ctx.share(ctx.params["n"]) // 16):
+        if ctx.out_of_time():
+            break
+        run_twins(ctx, pydsdl, rng, ctx.tmp)
     if ctx.params["exhaustive_pairs"]:
         pairs = list(all_pairs())
         ctx.notes["two_definition_subspace"] = len(pairs)
@@ -260,6 +330,21 @@ def run_shard(ctx):
 
 def replay(ctx, case):
     pydsdl = import_pydsdl()
+    if "twins" in case:
+        base = ctx.tmp / "c11t"
+        for f, d in zip(case["files"], case["twins"]):
+            d["ver"], d["req"], d["resp"] = tuple(d["ver"]), tuple(d["req"]), tuple(d["resp"])
+            (base / f).parent.mkdir(parents=True, exist_ok=True)
+            (base / f).write_text(def_text(d))
+        try:
+            if case.get("api") == "read_files":
+                print("accepted:", pydsdl.read_files([base / f for f in case["files"]], [base / "tgt"], allow_unregulated_fixed_port_id=True))
+            else:
+                print("accepted:", pydsdl.read_namespace(base / "tgt", [], allow_unregulated_fixed_port_id=True))
+            ctx.violation(case.get("mech", "C11/violating-set-accepted/twins"), "accepted", case)
+        except pydsdl.InvalidDefinitionError as ex:
+            print("rejected:", repr(ex))
+        return
     defs = case["defs"]
     for d in defs:
         d["ver"], d["req"], d["resp"] = tuple(d["ver"]), tuple(d["req"]), tuple(d["resp"])
